@@ -573,6 +573,17 @@ func (e *env) opImport(fno, old, new_ int, tam string) (string, string) {
 				en = "rejected"
 			}
 		}
+		// C01: a file this wallet software wrote, unaltered (or altered only in fields import ignores), offered with the
+		// passphrase in force at export to a wallet that does not hold the keystore and whose one private passphrase it
+		// keeps: it restores the keystore - nothing else about it can make the import fail
+		e.h.Res.OracleEvals++
+		present := false
+		for _, id := range e.ksIDs() {
+			present = present || id == f.id
+		}
+		if (tam == "none" || tam == "ignored") && old == f.priv && new_ < 0 && !present && e.wf[old] && old != e.pub && (had == 0 || e.priv == f.priv) && !e.faulty {
+			e.fail("C01", "untampered-file-rejected", "file %d (written by ExportKeystore for keystore %d under passphrase #%d, not altered) is refused with %q by a wallet that does not hold that keystore and is governed by the same passphrase", fno, f.id, f.priv, en)
+		}
 		return line, "err " + en
 	}
 	if had > 0 {
